@@ -104,8 +104,7 @@ theorem KInv.reach {s0 : Store} {trs : List TxRec} {s s' : Store} (hr : ConfReac
   induction hr with
   | nil => intro U h _; simpa using h
   | silent h1 h2 _ ih => intro U h hid; exact ih (h.silent h1 h2) hid
-  | conf _ ih =>
-    rename_i tr trs s s'
+  | @conf tr trs s s' _ ih =>
     intro U h hid
     have := ih (h.conf rank own tr (fun t ht => hid tr List.mem_cons_self t (h.sub_p _ _ ht)))
       (fun tr' htr' => hid tr' (List.mem_cons_of_mem _ htr'))
@@ -175,8 +174,7 @@ theorem KInv.final {rank : TxId → Nat} {s0 s' : Store} {U P : List Tx} {c : Li
   have hlost : ∀ x, Lost (c ++ [b]) [] P x → Gone s' x := by
     intro x hx
     induction hx with
-    | base hxP ha =>
-      rename_i x
+    | @base x hxP ha =>
       rw [alive0_connect hcons hxP] at ha
       cases hh : hasId b.txs x.id with
       | true => exact h.done_p x (hU2 x (hinb hxP hh) (hnocb x hxP))
@@ -193,8 +191,7 @@ theorem KInv.final {rank : TxId → Nat} {s0 s' : Store} {U P : List Tx} {c : Li
           have hl := h.wf.complete _ _ hg j hj
           rw [← e1, ← e2] at hl
           exact h.done_l u (hU2 u hu hucb) i hi _ hl
-    | step i hxP hi hpP hpid hnc _ ih =>
-      rename_i x p
+    | @step x p i hxP hi hpP hpid hnc _ ih =>
       cases hg : AMap.get s'.pending x.id with
       | none => exact hg
       | some x' =>
@@ -240,8 +237,7 @@ theorem KInv.final {rank : TxId → Nat} {s0 s' : Store} {U P : List Tx} {c : Li
         intro d hd
         induction hd with
         | root => exact ⟨hrlost, hrP, hrnb⟩
-        | step _ he ih =>
-          rename_i d e
+        | @step d e _ he ih =>
           obtain ⟨ihl, ihP, ihb⟩ := ih
           obtain ⟨k, _, hl, he0⟩ := he
           have heP := hrel.mem_of_pending he0
